@@ -27,6 +27,7 @@ import (
 	"fmt"
 	"math/big"
 	"os"
+	"runtime/debug"
 	"sort"
 	"strconv"
 	"strings"
@@ -70,7 +71,9 @@ type bsBeh struct {
 	Steps []bsStep `json:"steps"`
 }
 
+// bsInput is one group of behaviours (one model instance)
 type bsInput struct {
+	Tag          string  `json:"tag"`
 	P            int     `json:"p"`
 	Offsets      []int   `json:"offsets"`
 	Genesis      []int   `json:"genesis"`
@@ -78,6 +81,10 @@ type bsInput struct {
 	DefaultCount int     `json:"default_count"`
 	NCand        int     `json:"ncand"`
 	Behs         []bsBeh `json:"behs"`
+}
+
+type bsGroups struct {
+	Groups []bsInput `json:"groups"`
 }
 
 type bsContent struct{ Rank, Count int }
@@ -213,7 +220,7 @@ func (h *bsHarness) setup() error {
 }
 
 // boot is a process start on the chain the stub ChainDB shows: chain.NewChainService (InitSystemParams from the best
-// block's state) and dpos.New (NewCluster, InitVPR, Init, NewStatus).
+// block's state) and dpos.New (NewCluster, Init, NewStatus).
 func (w *bsWorld) boot() error {
 	h := w.h
 	system.InitSystemParams(h.sysState(h.sdb.GetStateDB()), len(h.genesis.BPs))
@@ -221,9 +228,8 @@ func (w *bsWorld) boot() error {
 	if err != nil {
 		return err
 	}
-	if err := InitVPR(h.sdb.GetStateDB()); err != nil {
-		return err
-	}
+	// dpos.New also reloads the voting power rank here (InitVPR); it is loaded once in setup and reloaded by the real
+	// Status.Update on every rollback - the reward lottery is not the subject here and a reload costs milliseconds
 	Init(bpc.Size())
 	w.bpc = bpc
 	w.st = NewStatus(bpc, w.cdb, h.sdb, 0)
@@ -424,17 +430,25 @@ func TestVerifBpSnapshots(t *testing.T) {
 		t.Skip("not started by bin/vcheck")
 	}
 	zerolog.SetGlobalLevel(zerolog.Disabled)
+	debug.SetGCPercent(400)
 	res := verifkit.NewResult()
 	defer func() {
 		if err := res.Write(); err != nil {
 			t.Fatal(err)
 		}
 	}()
-	var in bsInput
-	if err := verifkit.ReadInput(&in); err != nil {
+	var gs bsGroups
+	if err := verifkit.ReadInput(&gs); err != nil {
 		t.Fatal(err)
 	}
 	consensus.InitBlockInterval(1)
+	for gi := range gs.Groups {
+		runGroup(t, res, &gs.Groups[gi])
+	}
+}
+
+func runGroup(t *testing.T, res *verifkit.Result, gin *bsInput) {
+	in := *gin
 	h := &bsHarness{in: &in, res: res, num: map[string]int{}, period: int(bp.VerifPeriod())}
 	if len(in.Offsets) != in.P || in.Offsets[0] != 0 {
 		t.Fatalf("bad offsets %v for period %d", in.Offsets, in.P)
@@ -528,7 +542,9 @@ func TestVerifBpSnapshots(t *testing.T) {
 			res.Count("oracle|" + pk)
 		}
 	}
-	res.Note("oracle: %d distinct chains, %d fresh-node runs", len(keys), nOracle)
+	if shard == 0 {
+		res.Note("%s: oracle of shard 0: %d distinct chains, %d fresh-node runs", in.Tag, len(keys), nOracle)
+	}
 
 	// ---- phase 2: the behaviours
 	for _, b := range behs {
@@ -560,7 +576,7 @@ func (h *bsHarness) replay(b *bsBeh, oracle map[string][]int) {
 		return out
 	}
 	replayObj := func() map[string]interface{} {
-		return map[string]interface{}{"behaviour": b.ID, "step": step, "actions": trail(), "p": h.in.P, "offsets": h.in.Offsets,
+		return map[string]interface{}{"group": h.in.Tag, "behaviour": b.ID, "step": step, "actions": trail(), "p": h.in.P, "offsets": h.in.Offsets,
 			"rankings": h.in.Rankings, "genesis": h.in.Genesis, "default_count": h.in.DefaultCount, "seed": verifkit.Seed()}
 	}
 	defer func() {
@@ -679,7 +695,7 @@ func (h *bsHarness) replay(b *bsBeh, oracle map[string][]int) {
 			ok = false
 		}
 		if ok && len(o.Snaps) > 1 {
-			res.Sample(map[string]interface{}{"behaviour": b.ID, "step": step, "act": s.A, "height": s.Tip, "real_height": h.real(s.Tip), "list": o.List, "snapshots": keysOf(o.Snaps)})
+			res.Sample(map[string]interface{}{"group": h.in.Tag, "behaviour": b.ID, "step": step, "act": s.A, "height": s.Tip, "real_height": h.real(s.Tip), "list": o.List, "snapshots": keysOf(o.Snaps)})
 		}
 	}
 }
